@@ -34,7 +34,10 @@ _BIN = {ast.Add: operator.add, ast.Sub: operator.sub, ast.Mult: operator.mul, as
 
 class Engine:
     def __init__(self, modules=("py7zr.archiveinfo",), intmode="bv", width=80, unroll=8, merge_ifs=False,
-                 bytes_domain="vec", solver_timeout_ms=60000):
+                 bytes_domain="vec", solver_timeout_ms=60000, unwind="assert"):
+        self.unwind_mode = unwind  # 'assert': hitting the bound is INCONCLUSIVE; 'assume': the path is cut and counted
+        self.cut_paths = 0
+        self.loop_limits = {}  # (module, function qualname) -> (bound, 'assert'|'assume') for its while loops
         self.intmode, self.W, self.unroll, self.merge_ifs, self.bytes_domain = intmode, width, unroll, merge_ifs, bytes_domain
         self.modules = {}  # name -> dict(tree, real, funcs{name:FuncRef}, classes{name:SClass})
         self.solver = z3.Solver()
@@ -508,6 +511,8 @@ class Engine:
         params = [p.arg for p in a.posonlyargs + a.args]
         env = dict(closure_env) if closure_env else {}
         env["__module__"] = modname
+        if isinstance(f, FuncRef):
+            env["__func__"] = f.qualname
         if isinstance(f, FuncRef) and f.cls is not None:
             env["__class__"] = f.cls
         if len(args) > len(params) and not a.vararg:
@@ -563,6 +568,15 @@ class Engine:
             self.stmt(s, env)
 
     def stmt(self, s, env):
+        try:
+            return self._stmt(s, env)
+        except Inconclusive as ex:
+            if not getattr(ex, "where", None):
+                ex.where = "%s:%d" % (env.get("__module__"), s.lineno)
+                ex.args = (("%s [at %s]" % (ex.args[0] if ex.args else "", ex.where)),)
+            raise
+
+    def _stmt(self, s, env):
         k = type(s)
         if k is ast.Expr:
             if not isinstance(s.value, ast.Constant):
@@ -617,11 +631,15 @@ class Engine:
                 self.block(s.orelse, env)
         elif k is ast.While:
             n = 0
+            limit, mode = self.loop_limits.get((env.get("__module__"), env.get("__func__")), (self.unroll, self.unwind_mode))
             try:
                 while self.branch(self.truth(self.expr(s.test, env))):
                     n += 1
-                    if n > self.unroll:
-                        raise Unwind("while loop needs more than %d iterations (line %d)" % (self.unroll, s.lineno))
+                    if n > limit:
+                        if mode == "assume":
+                            self.cut_paths += 1
+                            raise PathEnd()
+                        raise Unwind("while loop needs more than %d iterations (line %d)" % (limit, s.lineno))
                     try:
                         self.block(s.body, env)
                     except ContinueEx:
@@ -969,7 +987,7 @@ class Engine:
 
     def _self_of(self, env):
         for k, v in env.items():
-            if k not in ("__module__", "__class__"):
+            if k not in ("__module__", "__class__", "__func__"):
                 return v
         raise Unsupported("super() without self")
 
